@@ -28,6 +28,27 @@ Count(ops, o) == Cardinality({k \in 1..Len(ops) : ops[k] = o})
 Cost(ops) == 4 * Count(ops, "X") + 2 * (Count(ops, "I") + Count(ops, "D"))
              + 6 * Cardinality({k \in 1..Len(ops) : ops[k] \in {"I", "D"} /\ (k = 1 \/ ops[k - 1] # ops[k])})
 
+(* The same automaton run-wise, for CIGARs with very long runs (a 60,000-base alignment is one    *)
+(* step per run, not per base): a run of n '=' is enabled iff the next n bases are equal as        *)
+(* strings, a run of n 'X' iff they differ position by position.  Returns <<i, j, bad run>>.       *)
+RunWalk(read, path, cg) ==
+  LET RECURSIVE W(_, _, _)
+      W(k, i, j) ==
+        IF k > Len(cg) THEN <<i, j, 0>>
+        ELSE LET n == cg[k][1] o == cg[k][2] IN
+          IF o = "=" THEN (IF i + n <= Len(read) /\ j + n <= Len(path) /\ SubSeq(read, i + 1, i + n) = SubSeq(path, j + 1, j + n)
+                           THEN W(k + 1, i + n, j + n) ELSE <<i, j, k>>)
+          ELSE IF o = "X" THEN (IF i + n <= Len(read) /\ j + n <= Len(path) /\ (\A d \in 1..n : Ch(read, i + d) # Ch(path, j + d))
+                                THEN W(k + 1, i + n, j + n) ELSE <<i, j, k>>)
+          ELSE IF o = "I" THEN (IF i + n <= Len(read) THEN W(k + 1, i + n, j) ELSE <<i, j, k>>)
+          ELSE IF o = "D" THEN (IF j + n <= Len(path) THEN W(k + 1, i, j + n) ELSE <<i, j, k>>)
+          ELSE <<i, j, k>>
+  IN W(1, 0, 0)
+RunCount(cg, o) == LET RECURSIVE S(_) S(k) == IF k = 0 THEN 0 ELSE S(k - 1) + (IF cg[k][2] = o THEN cg[k][1] ELSE 0) IN S(Len(cg))
+RunLen(cg) == RunCount(cg, "=") + RunCount(cg, "X") + RunCount(cg, "I") + RunCount(cg, "D")
+RunCost(cg) == 4 * RunCount(cg, "X") + 2 * (RunCount(cg, "I") + RunCount(cg, "D"))
+               + 6 * Cardinality({k \in 1..Len(cg) : cg[k][2] \in {"I", "D"} /\ (k = 1 \/ cg[k - 1][2] # cg[k][2])})
+
 -----------------------------------------------------------------------------
 (* generator *)
 CONSTANTS Walks,      \* sequences of steps <<o, id>> (walks of the fixed graph below)
@@ -58,4 +79,8 @@ Rle(o) == IF o = <<>> THEN <<>>
                IN <<<<n, o[1]>>>> \o Rle(SubSeq(o, n + 1, Len(o)))
 (* every generated (read, ops) is a valid alignment of the slice, and run-length encoding is faithful *)
 GeneratedValid == phase = "done" => ValidAln(read, Slice, Rle(ops)) /\ Expand(Rle(ops)) = ops
+RunWiseAgrees == phase = "done" =>
+   LET cg == Rle(ops) r == RunWalk(read, Slice, cg) IN
+     /\ r[3] = 0 /\ r[1] = Len(read) /\ r[2] = Len(Slice)
+     /\ RunCost(cg) = Cost(ops) /\ RunLen(cg) = Len(ops) /\ RunCount(cg, "=") = Count(ops, "=")
 =============================================================================
